@@ -8,3 +8,5 @@ import TransportVerif.Props.C07
 import TransportVerif.Props.C18
 import TransportVerif.Props.C02
 import TransportVerif.Props.C03
+import TransportVerif.Props.C09
+import TransportVerif.Props.C13
